@@ -84,6 +84,8 @@ func main() {
 			perm, _ = strconv.ParseInt(os.Args[2], 10, 64)
 		}
 		runOneshot(os.Stdin, perm)
+	case "solojob":
+		runSoloJob(os.Stdin)
 	case "racestress":
 		seed, _ := strconv.ParseInt(os.Args[2], 10, 64)
 		gr, _ := strconv.Atoi(os.Args[3])
